@@ -313,16 +313,19 @@ Definition bws_write (size : Z) (s : bws) (p : bytes) : bws * Z * list sev :=
   let buf := b_buf s in
   let '(buf1, ev1) := if (zlen p >? size - zlen buf) && (zlen buf >? 0) then bufio_flush buf else (buf, []) in
   let '(buf2, nn, ev2) := bufio_write 3 size buf1 p 0 [] in
-  ({| b_init := true; b_stopped := b_stopped s; b_buf := buf2 |}, nn, ev1 ++ ev2).
+  (* after Stop nothing would deliver the data any more: it is flushed at once
+     ("fix: BufferedWriteSyncer no longer strands data written after Stop") *)
+  let '(buf3, ev3) := if b_stopped s then bufio_flush buf2 else (buf2, []) in
+  ({| b_init := true; b_stopped := b_stopped s; b_buf := buf3 |}, nn, ev1 ++ ev2 ++ ev3).
 (* Sync: if s.initialized { err = s.writer.Flush() }; multierr.Append(err, s.WS.Sync()) *)
 Definition bws_sync (s : bws) : bws * list sev :=
   let '(buf1, ev1) := if b_init s then bufio_flush (b_buf s) else (b_buf s, []) in
   ({| b_init := b_init s; b_stopped := b_stopped s; b_buf := buf1 |}, ev1 ++ [SS]).
-(* Stop: nothing unless initialized and not yet stopped; then a final Sync *)
+(* Stop: nothing when not initialized; a repeated Stop only syncs the sink; the first one is a final Sync *)
 Definition bws_stop (s : bws) : bws * list sev :=
-  if b_init s && negb (b_stopped s) then
-    bws_sync {| b_init := b_init s; b_stopped := true; b_buf := b_buf s |}
-  else (s, []).
+  if negb (b_init s) then (s, [])
+  else if b_stopped s then (s, [SS])
+  else bws_sync {| b_init := b_init s; b_stopped := true; b_buf := b_buf s |}.
 
 (* a history: returned counts of the Writes, and what the sink saw *)
 Fixpoint bws_run (size : Z) (s : bws) (ops : list bop) : list Z * list sev :=
